@@ -90,3 +90,157 @@ Print Assumptions C14_run_meets_spec.
 Theorem C14_buffer_methods_are_the_source : C14_LeafTie.C14_buffer_methods_are_the_source_stmt.
 Proof. exact C14_LeafTie.C14_buffer_methods_are_the_source. Qed.
 Print Assumptions C14_buffer_methods_are_the_source.
+
+(* --------------------------------------------------------------------------------------------------------------
+   The first-difference scans ARE the source: the seven scan loops of the failure constructors of TestFailure.cpp, each regenerated on its own by tools/cxx2gal.py on every run (gen/Gen_LoopC14.v; x.at(i) is the translated, proved SimpleString::at), return the textbook first difference of the operands (of their lower-cased forms for the no-case check; bounded by size for memory blocks), read nothing beyond the terminators -- for operands that do not differ they stop AT the terminator, the index after it is refused by the memory model -- and terminate within first_diff + 1 iterations
+   -------------------------------------------------------------------------------------------------------------- *)
+From CppUVerif Require Import lib.CSem lib.CMem lib.CMemFacts gen.Gen_LoopC13 gen.Gen_LoopC14 C13_SrcSpec C14_SrcTie.
+Local Open Scope Z_scope.
+Theorem C14_src_scan_CheckEqual_raw_spec :
+  forall (fuel : nat) (m : memory) (fs : Z) (pa pe : ptr) (a ra e re : list N),
+  mem_ok m ->
+  cstr_at m pa a ra ->
+  cstr_at m pe e re ->
+  (first_diff a e < fuel)%nat ->
+  Z.of_nat (first_diff a e) < C13_SrcTie.M64 ->
+  src_scan_CheckEqual_raw fuel m fs pa pe = FOk (Z.of_nat (first_diff a e)).
+Proof. exact src_scan_CheckEqual_raw_spec. Qed.
+Print Assumptions C14_src_scan_CheckEqual_raw_spec.
+
+Theorem C14_src_scan_CheckEqual_printable_spec :
+  forall (fuel : nat) (m : memory) (fs : Z) (pa pe : ptr) (a ra e re : list N),
+  mem_ok m ->
+  cstr_at m pa a ra ->
+  cstr_at m pe e re ->
+  (first_diff a e < fuel)%nat ->
+  Z.of_nat (first_diff a e) < C13_SrcTie.M64 ->
+  src_scan_CheckEqual_printable fuel m fs pa pe = FOk (Z.of_nat (first_diff a e)).
+Proof. exact src_scan_CheckEqual_printable_spec. Qed.
+Print Assumptions C14_src_scan_CheckEqual_printable_spec.
+
+Theorem C14_src_scan_StringEqual_raw_spec :
+  forall (fuel : nat) (m : memory) (fs : Z) (pa pe : ptr) (a ra e re : list N),
+  mem_ok m ->
+  cstr_at m pa a ra ->
+  cstr_at m pe e re ->
+  (first_diff a e < fuel)%nat ->
+  Z.of_nat (first_diff a e) < C13_SrcTie.M64 ->
+  src_scan_StringEqual_raw fuel m pe pa fs = FOk (Z.of_nat (first_diff a e)).
+Proof. exact src_scan_StringEqual_raw_spec. Qed.
+Print Assumptions C14_src_scan_StringEqual_raw_spec.
+
+Theorem C14_src_scan_StringEqual_printable_spec :
+  forall (fuel : nat) (m : memory) (fs : Z) (pa pe : ptr) (a ra e re : list N),
+  mem_ok m ->
+  cstr_at m pa a ra ->
+  cstr_at m pe e re ->
+  (first_diff a e < fuel)%nat ->
+  Z.of_nat (first_diff a e) < C13_SrcTie.M64 ->
+  src_scan_StringEqual_printable fuel m fs pa pe = FOk (Z.of_nat (first_diff a e)).
+Proof. exact src_scan_StringEqual_printable_spec. Qed.
+Print Assumptions C14_src_scan_StringEqual_printable_spec.
+
+Theorem C14_src_scan_NoCase_raw_spec :
+  forall (fuel : nat) (m : memory) (fs : Z) (pa pe : ptr) (a ra e re : list N),
+  mem_ok m ->
+  cstr_at m pa a ra ->
+  cstr_at m pe e re ->
+  (first_diff (map to_lower a) (map to_lower e) < fuel)%nat ->
+  Z.of_nat (first_diff (map to_lower a) (map to_lower e)) < C13_SrcTie.M64 ->
+  src_scan_NoCase_raw fuel m pe pa fs = FOk (Z.of_nat (first_diff (map to_lower a) (map to_lower e))).
+Proof. exact src_scan_NoCase_raw_spec. Qed.
+Print Assumptions C14_src_scan_NoCase_raw_spec.
+
+Theorem C14_src_scan_NoCase_printable_spec :
+  forall (fuel : nat) (m : memory) (fs : Z) (pa pe : ptr) (a ra e re : list N),
+  mem_ok m ->
+  cstr_at m pa a ra ->
+  cstr_at m pe e re ->
+  (first_diff (map to_lower a) (map to_lower e) < fuel)%nat ->
+  Z.of_nat (first_diff (map to_lower a) (map to_lower e)) < C13_SrcTie.M64 ->
+  src_scan_NoCase_printable fuel m fs pa pe = FOk (Z.of_nat (first_diff (map to_lower a) (map to_lower e))).
+Proof. exact src_scan_NoCase_printable_spec. Qed.
+Print Assumptions C14_src_scan_NoCase_printable_spec.
+
+Theorem C14_src_scan_Binary_spec :
+  forall (fuel : nat) (m : memory) (fs : Z) (pa pe : ptr) (size : Z) (a e : list N),
+  view m pa = a ->
+  view m pe = e ->
+  size < C13_SrcTie.M64 ->
+  (Z.to_nat size <= length a)%nat ->
+  (Z.to_nat size <= length e)%nat ->
+  (first_diff (firstn (Z.to_nat size) a) (firstn (Z.to_nat size) e) < fuel)%nat ->
+  src_scan_Binary fuel m pe pa size fs =
+  FOk (Z.of_nat (first_diff (firstn (Z.to_nat size) a) (firstn (Z.to_nat size) e))).
+Proof. exact src_scan_Binary_spec. Qed.
+Print Assumptions C14_src_scan_Binary_spec.
+
+Theorem C14_C14_binary_equal_tight :
+  forall (fuel : nat) (m : memory) (fs : Z) (pa pe : ptr) (size : Z),
+  0 <= size < C13_SrcTie.M64 ->
+  length (view m pa) = Z.to_nat size ->
+  view m pe = view m pa -> (Z.to_nat size < fuel)%nat -> src_scan_Binary fuel m pe pa size fs = FOk size.
+Proof. exact C14_binary_equal_tight. Qed.
+Print Assumptions C14_C14_binary_equal_tight.
+
+Theorem C14_C14_string_scans_no_oob :
+  forall (fuel : nat) (m : memory) (fs : Z) (pa pe : ptr) (a ra e re : list N),
+  mem_ok m ->
+  cstr_at m pa a ra ->
+  cstr_at m pe e re ->
+  (length a < fuel)%nat ->
+  Z.of_nat (length a) < C13_SrcTie.M64 ->
+  src_scan_CheckEqual_raw fuel m fs pa pe <> FOob /\
+  src_scan_CheckEqual_printable fuel m fs pa pe <> FOob /\
+  src_scan_StringEqual_raw fuel m pe pa fs <> FOob /\
+  src_scan_StringEqual_printable fuel m fs pa pe <> FOob /\
+  src_scan_NoCase_raw fuel m pe pa fs <> FOob /\ src_scan_NoCase_printable fuel m fs pa pe <> FOob.
+Proof. exact C14_string_scans_no_oob. Qed.
+Print Assumptions C14_C14_string_scans_no_oob.
+
+Theorem C14_C14_binary_scan_no_oob :
+  forall (fuel : nat) (m : memory) (fs : Z) (pa pe : ptr) (size : Z),
+  size < C13_SrcTie.M64 ->
+  (Z.to_nat size <= length (view m pa))%nat ->
+  (Z.to_nat size <= length (view m pe))%nat ->
+  (Z.to_nat size < fuel)%nat -> src_scan_Binary fuel m pe pa size fs <> FOob.
+Proof. exact C14_binary_scan_no_oob. Qed.
+Print Assumptions C14_C14_binary_scan_no_oob.
+
+Theorem C14_C14_equal_scans_stop_at_terminator :
+  forall (fuel : nat) (m : memory) (fs : Z) (pa pe : ptr) (a : list N),
+  mem_ok m ->
+  C13_Proofs.NN a ->
+  view m pa = a ++ [0%N] ->
+  view m pe = a ++ [0%N] ->
+  (length a < fuel)%nat ->
+  Z.of_nat (length a) < C13_SrcTie.M64 ->
+  src_scan_CheckEqual_raw fuel m fs pa pe = FOk (Z.of_nat (length a)) /\
+  src_scan_CheckEqual_printable fuel m fs pa pe = FOk (Z.of_nat (length a)) /\
+  src_scan_StringEqual_raw fuel m pe pa fs = FOk (Z.of_nat (length a)) /\
+  src_scan_StringEqual_printable fuel m fs pa pe = FOk (Z.of_nat (length a)) /\
+  src_scan_NoCase_raw fuel m pe pa fs = FOk (Z.of_nat (length a)) /\
+  src_scan_NoCase_printable fuel m fs pa pe = FOk (Z.of_nat (length a)).
+Proof. exact C14_equal_scans_stop_at_terminator. Qed.
+Print Assumptions C14_C14_equal_scans_stop_at_terminator.
+
+Theorem C14_C14_read_after_terminator_refused :
+  forall (fuel : nat) (m : memory) (p : ptr) (a : list N) (k : Z),
+  view m p = a ++ [0%N] -> Z.of_nat (length a) < k -> rdp m p k = None /\ src_at fuel m p k = FOob.
+Proof. exact C14_read_after_terminator_refused. Qed.
+Print Assumptions C14_C14_read_after_terminator_refused.
+
+Theorem C14_C14_nocase_equal_stop_at_terminator :
+  forall (fuel : nat) (m : memory) (fs : Z) (pa pe : ptr) (a e : list N),
+  mem_ok m ->
+  C13_Proofs.NN a ->
+  C13_Proofs.NN e ->
+  map to_lower a = map to_lower e ->
+  view m pa = a ++ [0%N] ->
+  view m pe = e ++ [0%N] ->
+  (length a < fuel)%nat ->
+  Z.of_nat (length a) < C13_SrcTie.M64 ->
+  src_scan_NoCase_raw fuel m pe pa fs = FOk (Z.of_nat (length a)) /\
+  src_scan_NoCase_printable fuel m fs pa pe = FOk (Z.of_nat (length a)).
+Proof. exact C14_nocase_equal_stop_at_terminator. Qed.
+Print Assumptions C14_C14_nocase_equal_stop_at_terminator.
